@@ -1,0 +1,13 @@
+//go:build verif
+
+package common
+
+import "github.com/MixinNetwork/mixin/crypto"
+
+// Verification hook (build tag verif) for the /verif C04 harness: reaches the
+// unexported output validation step (in-transaction duplicate key filter and
+// the durable key lock) with a caller-chosen locker, payload hash and input
+// amount.  Returns only the decision.
+func VerifC04ValidateOutputs(tx *Transaction, store GhostLocker, hash crypto.Hash, inputAmount Integer, fork bool) error {
+	return tx.validateOutputs(store, hash, inputAmount, fork)
+}
